@@ -65,6 +65,26 @@ func c17one(s string, want string, form string) {
 			return
 		}
 	}
+	// marshalling a step uses the typed plugin list (canonical sources) also when an unknown field of the step is
+	// called `plugins` (possible for a step built or edited through the API)
+	if c17parseN%13 == 5 && strings.ToValidUTF8(s, "\uFFFD") == s && s != "" {
+		st := &pipeline.CommandStep{Command: "c", Plugins: pipeline.Plugins{{Source: s}}, RemainingFields: map[string]any{"plugins": map[string]any{s: "from the unknown field"}, "other": 1}}
+		jb, jerr := json.Marshal(st)
+		var back struct {
+			Plugins []map[string]any `json:"plugins"`
+		}
+		if jerr != nil || json.Unmarshal(jb, &back) != nil || len(back.Plugins) != 1 {
+			oracleFail("C17", "shadowed-plugins-field", c, fmt.Sprintf("a step with the typed plugin %q and an unknown field named plugins marshals to %s (err %v): the typed list must win", s, jb, jerr))
+			return
+		}
+		for k := range back.Plugins[0] {
+			if k != got {
+				oracleFail("C17", "shadowed-plugins-field", c, fmt.Sprintf("marshalled plugin key %q, want the canonical source %q", k, got))
+				return
+			}
+		}
+		stat("C17", "shadowed-plugins-field")
+	}
 	// a plugin list that was decoded earlier keeps its plugins when the same variable decodes another document
 	if c17parseN%11 == 3 && strings.ToValidUTF8(s, "\uFFFD") == s && c17prev != "" {
 		docA, _ := json.Marshal([]any{map[string]any{c17prev: nil}, map[string]any{"kept/second#v2": map[string]any{"k": "v"}}})
